@@ -22,9 +22,13 @@ def record(workdir):
         nxt = evs[k + 1]
         if nxt["ev"] not in ("accept", "reject") or nxt["path"] != e["path"]:
             continue
-        accepted = nxt["ev"] == "accept" or nxt.get("err") != "incorrect usage"     # a conversion error comes after the match
+        # fsm.Parse fails either because the search found no derivation ("incorrect usage") or, after a successful match, because
+        # a value did not convert. Only the first kind is a rejection in the sense of C01; a failure with another message is left
+        # out (if the wording of the message ever changes, the rejected records are lost, not misread)
+        if nxt["ev"] == "reject" and nxt.get("err") != "incorrect usage":
+            continue
         key = (e["spec"], json.dumps(e["opts"]), json.dumps(e["argdecls"]), tuple(e["argv"][:e["nargs"]]))
-        recs[key] = accepted
+        recs[key] = nxt["ev"] == "accept"
     return len(evs), recs, p.returncode
 
 
